@@ -212,6 +212,12 @@ def decide(pid, tier='quick', seed=0, known=None):
         viol.append(dict(obligation=o['label'], kind=o['kind'],
                          verifier_output='\n'.join(f['rendered'] for f in fs) or 'function reported as failed by Verus',
                          text=o.get('text', '')))
+    lemma_failed = [v for v in viol if '.lemma.' in v['obligation']]
+    if lemma_failed and other_fail:
+        extra = '\n'.join(f['rendered'] for k in other_fail for f in failed_safety[k])
+        for v in lemma_failed:
+            v['verifier_output'] = extra
+        other_fail = []
     for k in other_fail:
         fs = failed_safety[k]
         viol.append(dict(obligation='%s.%s' % (pid, k), kind='unlabelled lemma failure',
